@@ -1,11 +1,168 @@
 (* Properties/C18.v -- SVG shapes and paths are drawn with the geometry SVG defines.
-   Only statements, closed by `exact`, each followed by Print Assumptions. *)
-From Verif Require Import Base.F32 Geom.Matrix Geom.TransformSpec Geom.MatrixProofs.
-From Coq Require Import QArith.
+   Only statements, closed by `exact`, each followed by Print Assumptions.
+   Model: Geom/SvgPath.v (number scanner, path interpreter), Geom/Shapes.v,
+   Geom/UseGraph.v, Geom/Matrix.v (viewbox_transform).  Spec: Geom/SvgPathSpec.v,
+   Geom/TransformSpec.v (vb_spec).  Statements about exact coordinates use the
+   exact-rational instance (exactQ, literal conversion cv_exact); the totality
+   statements hold for every arithmetic instance, in particular the float32
+   instance that Check/C18.v compares bit for bit with /repo on every run. *)
+From Verif Require Import Base.GoSem Base.F32 Geom.Matrix Geom.TransformSpec Geom.MatrixProofs.
+From Verif Require Import Geom.SvgPath Geom.Shapes Geom.UseGraph Geom.SvgPathSpec.
+From Verif Require Import Geom.SvgPathProofs Geom.ShapesProofs Geom.UseGraphProofs.
+From Coq Require Import QArith List NArith ZArith.
+Import ListNotations.
 Open Scope Q_scope.
 
+(* ------------------------------------------------------------------ *)
+(* the path parser never panics and always terminates: every byte string,
+   every arithmetic instance, every literal conversion (wanted by C07) *)
+Theorem C18_svg_parse_total : forall (ar : arith) (rc : Q -> Q) (cv : Z -> Z -> option Q) (d : list N),
+  exists r, parse_path ar rc cv d = Ok r.
+Proof. exact parse_path_total. Qed.
+Print Assumptions C18_svg_parse_total.
+
+Theorem C18_parse_points_total : forall (cv : Z -> Z -> option Q) (is_arc : bool) (d : list N),
+  exists r, parse_points cv is_arc d = Ok r.
+Proof. exact parse_points_total. Qed.
+Print Assumptions C18_parse_points_total.
+
+Theorem C18_parse_viewbox_poly_total : forall (cv : Z -> Z -> option Q) (d : list N),
+  (exists r, parse_viewbox cv d = Ok r) /\ (exists r, parse_poly cv d = Ok r).
+Proof. exact (fun cv d => conj (parse_viewbox_total cv d) (parse_poly_total cv d)). Qed.
+Print Assumptions C18_parse_viewbox_poly_total.
+
+(* the interpreter on one lexed segment: no out-of-range slice access, no
+   unbounded loop, for every op byte and every number list *)
+Theorem C18_exec_total : forall (ar : arith) (rc : Q -> Q) (s : pst) (o : N) (pts : list Q),
+  exists r, exec ar rc s o pts = Ok r.
+Proof. exact exec_total. Qed.
+Print Assumptions C18_exec_total.
+
+(* ------------------------------------------------------------------ *)
+(* on every abstract command list (all commands, absolute and relative, any
+   number of argument groups) the interpreter's op list is the one SVG 1.1
+   section 8.3 defines: implicit repetition, moveto's extra pairs are linetos,
+   relative = current point per group, H/V, S/T reflection rule, quadratic
+   elevation, closepath returning to the sub-path start *)
+Theorem C18_path_interp_spec : forall cmds : list cmd,
+  interp_ops exactQ (fun x => x) (map flatten cmds) = Ok (Some (denote cmds)).
+Proof. exact path_interp_spec. Qed.
+Print Assumptions C18_path_interp_spec.
+
+(* non-vacuity: a path exercising every rule *)
+Example C18_path_example :
+  denote [CMove true (1, 1) [(2, 0)]; CQuad false ((5, 5), (7, 1)) []; CSmoothQuad true (2, 0) [];
+          CClose true; CLine true (1, 1) []; CClose false;
+          CCubic false ((0, 0), (1, 2), (3, 3)) []; CSmooth true ((1, 0), (2, 2)) [];
+          CHoriz true 1 [1]; CVert false 0 []]
+  = [OMove 1 1; OLine 3 1;
+     OCubic (3 + (2 # 3) * (5 - 3)) (1 + (2 # 3) * (5 - 1)) (7 + (2 # 3) * (5 - 7)) (1 + (2 # 3) * (5 - 1)) 7 1;
+     OCubic (7 + (2 # 3) * (7 * 2 - 5 - 7)) (1 + (2 # 3) * (1 * 2 - 5 - 1))
+            (2 + 7 + (2 # 3) * (7 * 2 - 5 - (2 + 7))) (0 + 1 + (2 # 3) * (1 * 2 - 5 - (0 + 1))) (2 + 7) (0 + 1);
+     OClose 1 1; OLine (1 + 1) (1 + 1); OClose 1 1;
+     OCubic 0 0 1 2 3 3; OCubic (3 * 2 - 1) (3 * 2 - 2) (1 + 3) (0 + 3) (2 + 3) (2 + 3);
+     OLine (2 + 3 + 1) (2 + 3); OLine (2 + 3 + 1 + 1) (2 + 3); OLine (2 + 3 + 1 + 1) 0].
+Proof. reflexivity. Qed.
+
+(* arcs (every arithmetic instance): the segment starts at the current point
+   and ends exactly at the given point; identical end points: omitted; a zero
+   radius: a straight line.  (That interior points lie on the ellipse is not
+   modelled.) *)
+Theorem C18_arc_endpoints : forall (ar : arith) (rel : bool) (rx ry rot la sw x y : Q) (s : pst),
+  let ex := if rel then add ar x (curx s) else x in
+  let ey := if rel then add ar y (cury s) else y in
+  let s' := step_arc ar rel [rx; ry; rot; la; sw; x; y] s in
+  if Qeq_bool ex (curx s) && Qeq_bool ey (cury s) then s' = s
+  else curx s' = ex /\ cury s' = ey /\
+       exists o, ops s' = o :: ops s /\ op_end o = (ex, ey) /\
+                 o = if Qeq_bool rx 0 || Qeq_bool ry 0 then OLine ex ey
+                     else OArc (curx s) (cury s) rx ry rot la sw ex ey.
+Proof. exact arc_endpoints. Qed.
+Print Assumptions C18_arc_endpoints.
+
+(* ------------------------------------------------------------------ *)
+(* basic shapes *)
+Theorem C18_shapes_spec_rect : forall x y w h orx ory,
+  match rect_outline x y w h orx ory with
+  | None => rect_ops exactQ (fun x => x) x y w h orx ory = []
+  | Some pts =>
+      if Qeq_bool (fst (rect_radii orx ory)) 0 || Qeq_bool (snd (rect_radii orx ory)) 0
+      then rect_ops exactQ (fun x => x) x y w h orx ory = [SRect x y w h]
+      else map sop_end (rect_ops exactQ (fun x => x) x y w h orx ory) = pts ++ [hd (0, 0) pts] /\
+           forallb is_path_op (rect_ops exactQ (fun x => x) x y w h orx ory) = true
+  end.
+Proof. exact rect_spec. Qed.
+Print Assumptions C18_shapes_spec_rect.
+
+Theorem C18_shapes_spec_ellipse : forall cx cy rx ry,
+  match ellipse_outline cx cy rx ry with
+  | None => ellipse_ops exactQ (fun x => x) cx cy rx ry = []
+  | Some pts => map sop_end (ellipse_ops exactQ (fun x => x) cx cy rx ry) = pts ++ [hd (0, 0) pts] /\
+                forallb is_path_op (ellipse_ops exactQ (fun x => x) cx cy rx ry) = true
+  end.
+Proof. exact ellipse_spec. Qed.
+Print Assumptions C18_shapes_spec_ellipse.
+
+Theorem C18_shapes_spec_line_poly :
+  (forall x1 y1 x2 y2, line_ops x1 y1 x2 y2 = [SOp true (OMove x1 y1); SOp true (OLine x2 y2)]) /\
+  (forall closed p ps,
+     poly_ops closed (p :: ps) =
+     map (SOp true) (OMove (fst p) (snd p) :: map (fun q => OLine (fst q) (snd q)) ps)
+     ++ (if closed then [SOp true (OClose (fst p) (snd p))] else [])) /\
+  (forall closed, poly_ops closed [] = []).
+Proof. exact (conj line_spec (conj poly_spec poly_empty)). Qed.
+Print Assumptions C18_shapes_spec_line_poly.
+
+Example C18_rect_example :
+  rect_outline 0 0 10 4 (SomeQ 8) NoQ
+  = Some [(0 + Qmin 8 (10 / 2), 0); (0 + 10 - Qmin 8 (10 / 2), 0); (0 + 10, 0 + Qmin 8 (4 / 2));
+          (0 + 10, 0 + 4 - Qmin 8 (4 / 2)); (0 + 10 - Qmin 8 (10 / 2), 0 + 4); (0 + Qmin 8 (10 / 2), 0 + 4);
+          (0, 0 + 4 - Qmin 8 (4 / 2)); (0, 0 + Qmin 8 (4 / 2)); (0 + Qmin 8 (10 / 2), 0)]
+  /\ Qmin 8 (10 / 2) == 5 /\ Qmin 8 (4 / 2) == 2.
+Proof. repeat split. Qed.
+
+(* ------------------------------------------------------------------ *)
 (* viewBox / preserveAspectRatio (svg.go:332-377) = SVG 1.1 section 7.8 *)
 Theorem C18_viewbox_spec : forall p w h vx vy vw vh, ~ vw == 0 -> ~ vh == 0 ->
   q4eq (viewbox_transform exactQ p w h vx vy vw vh) (vb_spec p w h vx vy vw vh).
 Proof. exact viewbox_spec. Qed.
 Print Assumptions C18_viewbox_spec.
+
+Theorem C18_viewbox_meet_fits : forall p w h vx vy vw vh, 0 < vw -> 0 < vh ->
+  par_none p = false -> par_slice p = false ->
+  let '(sx, sy, _, _) := viewbox_transform exactQ p w h vx vy vw vh in
+  sx == sy /\ vw * sx <= w /\ vh * sy <= h.
+Proof. exact viewbox_meet_fits. Qed.
+Print Assumptions C18_viewbox_meet_fits.
+
+(* ------------------------------------------------------------------ *)
+(* reference following terminates on every graph, cycles and dangling ids
+   included, for <use> (cycle = error) and for drawing-time references
+   (clip-path / mask / marker: cycle = ignored) *)
+Theorem C18_use_graph_terminates : forall (g : graph) (its : list item),
+  (exists r, resolve g its = Ok r) /\ (exists r, draw_refs g its = Ok r) /\ (exists r, document g its = Ok r).
+Proof.
+  exact (fun g its => conj (resolve_terminates g its) (conj (draw_refs_terminates g its) (document_terminates g its))).
+Qed.
+Print Assumptions C18_use_graph_terminates.
+
+(* every id is in the chain of references being followed at most once, and
+   chains are no longer than the number of defined ids *)
+Theorem C18_use_chain_nodup : forall g root inuse its, reach g ([], root) (inuse, its) ->
+  NoDup inuse /\ incl inuse (keys g) /\ (length inuse <= length g)%nat.
+Proof. exact chain_nodup. Qed.
+Print Assumptions C18_use_chain_nodup.
+
+(* a reference to an id being followed is not followed again; an undefined id is ignored *)
+Theorem C18_cyclic_or_missing_ignored : forall b g fuel inuse id r,
+  (mem id inuse = true ->
+   UseGraph.expand b g fuel inuse (Ref id :: r) = if b then Ok None else UseGraph.expand b g fuel inuse r) /\
+  (mem id inuse = false -> lookup g id = None ->
+   UseGraph.expand b g fuel inuse (Ref id :: r) = UseGraph.expand b g fuel inuse r).
+Proof. exact (fun b g fuel inuse id r => conj (cyclic_ref b g fuel inuse id r) (dangling_ref b g fuel inuse id r)). Qed.
+Print Assumptions C18_cyclic_or_missing_ignored.
+
+Example C18_use_cycle_example :
+  resolve [(1%N, [Leaf 7%N; Ref 2%N]); (2%N, [Ref 1%N])] [Ref 1%N] = Ok None /\
+  draw_refs [(1%N, [Leaf 7%N; Ref 2%N]); (2%N, [Ref 1%N; Leaf 8%N])] [Ref 1%N; Ref 9%N] = Ok (Some [7%N; 8%N]).
+Proof. split; reflexivity. Qed.
